@@ -57,6 +57,7 @@ type nOuter struct {
 	L  []nInner
 	M  map[string]nInner
 }
+
 // no renaming tag at this level, a by-value nested struct whose own fields are renamed
 type nWrap struct {
 	Inner nInner
@@ -257,6 +258,11 @@ func (f *filler) fill(v reflect.Value, depth int) {
 			v.SetUint(n % 200)
 		}
 	case reflect.Float32, reflect.Float64:
+		if v.Kind() == reflect.Float32 && r.P(25) {
+			// values whose float32 -> float64 widening is exact but whose shortest decimal rendering is not
+			v.SetFloat(float64(gen.Pick(r, []float32{1 << 40, 1<<30 + 128, 33554436, 1.0 / 3.0, 0.1, 16777215, 9.536743e-07})))
+			return
+		}
 		x := float64(r.Range(-64, 64)) / 8
 		if r.P(15) {
 			x = 0
